@@ -23,7 +23,36 @@ var (
 	fset   = token.NewFileSet()
 )
 
+// factFailure is what a fact extractor panics with; the generator writes fallback definitions for its
+// group, so that only the obligations that use those facts fail (not every check of every property).
+type factFailure string
+
+var factErrors []string
+
+func dieSoft(format string, a ...any) { panic(factFailure(fmt.Sprintf(format, a...))) }
+
+// group runs one extractor; on failure its partial output is dropped and the fallback is written
+func group(w *strings.Builder, name string, f func(w *strings.Builder), fallback string) {
+	var local strings.Builder
+	defer func() {
+		if r := recover(); r != nil {
+			ff, ok := r.(factFailure)
+			if !ok {
+				panic(r)
+			}
+			factErrors = append(factErrors, name+": "+string(ff))
+			fmt.Fprintf(os.Stderr, "factgen: %s: %s (fallback facts written)\n", name, string(ff))
+			w.WriteString(fallback)
+		}
+	}()
+	f(&local)
+	w.WriteString(local.String())
+}
+
 func die(format string, a ...any) {
+	if inGroup {
+		dieSoft(format, a...)
+	}
 	fmt.Fprintf(os.Stderr, "factgen: "+format+"\n", a...)
 	os.Exit(1)
 }
@@ -334,34 +363,51 @@ func factsEdits(w *strings.Builder) {
 	if fd == nil {
 		die("container-edits.go: (*DeviceNode).Validate not found")
 	}
+	// the device types DeviceNode.Validate accepts, in whichever form they are written: keys of a map
+	// literal, cases of a switch on the Type field, or equality tests on it
 	var types []string
-	found := false
-	ast.Inspect(fd.Body, func(n ast.Node) bool {
-		as, ok := n.(*ast.AssignStmt)
-		if !ok || len(as.Lhs) != 1 {
-			return true
+	seenT := map[string]bool{}
+	addT := func(e ast.Expr) {
+		s, ok := strLit(e)
+		if id, isId := e.(*ast.Ident); isId && !ok {
+			s, ok = consts[id.Name]
 		}
-		if id, ok := as.Lhs[0].(*ast.Ident); !ok || id.Name != "validTypes" {
-			return true
-		}
-		cl, ok := as.Rhs[0].(*ast.CompositeLit)
-		if !ok {
-			return true
-		}
-		found = true
-		for _, e := range cl.Elts {
-			kv := e.(*ast.KeyValueExpr)
-			bl, ok := kv.Key.(*ast.BasicLit)
-			if !ok {
-				die("container-edits.go: validTypes key shape")
-			}
-			s, _ := strconv.Unquote(bl.Value)
+		if ok && !seenT[s] {
+			seenT[s] = true
 			types = append(types, s)
+		}
+	}
+	isTypeField := func(e ast.Expr) bool {
+		se, ok := e.(*ast.SelectorExpr)
+		return ok && se.Sel.Name == "Type"
+	}
+	ast.Inspect(fd.Body, func(n ast.Node) bool {
+		switch t := n.(type) {
+		case *ast.CompositeLit:
+			if _, isMap := t.Type.(*ast.MapType); isMap {
+				for _, e := range t.Elts {
+					if kv, ok := e.(*ast.KeyValueExpr); ok {
+						addT(kv.Key)
+					}
+				}
+			}
+		case *ast.SwitchStmt:
+			if t.Tag != nil && isTypeField(t.Tag) {
+				for _, cc := range t.Body.List {
+					for _, e := range cc.(*ast.CaseClause).List {
+						addT(e)
+					}
+				}
+			}
+		case *ast.BinaryExpr:
+			if (t.Op == token.EQL || t.Op == token.NEQ) && isTypeField(t.X) {
+				addT(t.Y)
+			}
 		}
 		return true
 	})
-	if !found {
-		die("container-edits.go: validTypes literal not found in DeviceNode.Validate")
+	if len(types) == 0 {
+		die("container-edits.go: no device type literals found in DeviceNode.Validate")
 	}
 	fmt.Fprintf(w, "/-- F4: keys of `validTypes` in `DeviceNode.Validate`. -/\ndef deviceTypes : List String := %s\n", leanStrList(types))
 
@@ -496,60 +542,175 @@ func evalInt(e ast.Expr) (int, bool) {
 }
 
 // ---- F6: extensions and temp pattern
-func extTestsIn(rel string, w *strings.Builder, acc *[]string) {
-	f := parseFile(rel)
-	for _, d := range f.Decls {
-		fd, ok := d.(*ast.FuncDecl)
-		if !ok || fd.Body == nil {
-			continue
+//
+// Per function of the three files: the string literals a file-name extension is compared with —
+// directly (ext == "x", switch ext { case "x": }, set[ext] with a package-level set literal) or
+// through helper functions of the same package it calls (a predicate such as hasSpecExt).
+type extFunc struct {
+	rel     string
+	fd      *ast.FuncDecl
+	direct  map[string]bool
+	callees map[string]bool
+}
+
+func isExtExpr(e ast.Expr) bool {
+	switch t := e.(type) {
+	case *ast.Ident:
+		return t.Name == "ext"
+	case *ast.CallExpr:
+		if se, ok := t.Fun.(*ast.SelectorExpr); ok && se.Sel.Name == "Ext" {
+			return true
 		}
-		// collect `ext != "x"` / `ext == "x"` / filepath.Ext(..) == "x" comparisons per function
-		var lits []string
-		ast.Inspect(fd.Body, func(n ast.Node) bool {
-			be, ok := n.(*ast.BinaryExpr)
-			if !ok || (be.Op != token.NEQ && be.Op != token.EQL) {
+	case *ast.ParenExpr:
+		return isExtExpr(t.X)
+	}
+	return false
+}
+
+func strLit(e ast.Expr) (string, bool) {
+	if bl, ok := e.(*ast.BasicLit); ok && bl.Kind == token.STRING {
+		s, err := strconv.Unquote(bl.Value)
+		return s, err == nil
+	}
+	return "", false
+}
+
+func extFuncs(rels []string) map[string]*extFunc {
+	out := map[string]*extFunc{}
+	setLits := map[string][]string{} // package-level composite literals with string keys / elements
+	var files []*ast.File
+	for _, rel := range rels {
+		f := parseFile(rel)
+		files = append(files, f)
+		ast.Inspect(f, func(n ast.Node) bool {
+			vs, ok := n.(*ast.ValueSpec)
+			if !ok {
 				return true
 			}
-			isExt := func(e ast.Expr) bool {
-				if id, ok := e.(*ast.Ident); ok && id.Name == "ext" {
-					return true
+			for i, nm := range vs.Names {
+				if i >= len(vs.Values) {
+					break
 				}
-				if ce, ok := e.(*ast.CallExpr); ok {
-					if se, ok := ce.Fun.(*ast.SelectorExpr); ok && se.Sel.Name == "Ext" {
-						return true
+				if cl, ok := vs.Values[i].(*ast.CompositeLit); ok {
+					for _, e := range cl.Elts {
+						k := e
+						if kv, ok := e.(*ast.KeyValueExpr); ok {
+							k = kv.Key
+						}
+						if s, ok := strLit(k); ok {
+							setLits[nm.Name] = append(setLits[nm.Name], s)
+						}
 					}
 				}
-				return false
-			}
-			if !isExt(be.X) {
-				return true
-			}
-			if bl, ok := be.Y.(*ast.BasicLit); ok && bl.Kind == token.STRING {
-				s, _ := strconv.Unquote(bl.Value)
-				lits = append(lits, s)
 			}
 			return true
 		})
-		if len(lits) > 0 {
-			sort.Strings(lits)
-			// a set: a function may test the extension more than once
-			uniq := lits[:0]
-			for i, l := range lits {
-				if i == 0 || l != lits[i-1] {
-					uniq = append(uniq, l)
-				}
+	}
+	for i, f := range files {
+		for _, d := range f.Decls {
+			fd, ok := d.(*ast.FuncDecl)
+			if !ok || fd.Body == nil {
+				continue
 			}
-			lits = uniq
-			*acc = append(*acc, "("+leanStr(rel+":"+fd.Name.Name)+", "+leanStrList(lits)+")")
+			ef := &extFunc{rel: rels[i], fd: fd, direct: map[string]bool{}, callees: map[string]bool{}}
+			ast.Inspect(fd.Body, func(n ast.Node) bool {
+				switch t := n.(type) {
+				case *ast.BinaryExpr:
+					if t.Op == token.NEQ || t.Op == token.EQL {
+						if isExtExpr(t.X) {
+							if s, ok := strLit(t.Y); ok {
+								ef.direct[s] = true
+							}
+						} else if isExtExpr(t.Y) {
+							if s, ok := strLit(t.X); ok {
+								ef.direct[s] = true
+							}
+						}
+					}
+				case *ast.SwitchStmt:
+					if t.Tag != nil && isExtExpr(t.Tag) {
+						for _, cc := range t.Body.List {
+							for _, e := range cc.(*ast.CaseClause).List {
+								if s, ok := strLit(e); ok {
+									ef.direct[s] = true
+								}
+							}
+						}
+					}
+				case *ast.IndexExpr:
+					if id, ok := t.X.(*ast.Ident); ok && isExtExpr(t.Index) {
+						for _, s := range setLits[id.Name] {
+							ef.direct[s] = true
+						}
+					}
+				case *ast.CallExpr:
+					switch fn := t.Fun.(type) {
+					case *ast.Ident:
+						ef.callees[fn.Name] = true
+					case *ast.SelectorExpr:
+						ef.callees[fn.Sel.Name] = true
+					}
+				}
+				return true
+			})
+			out[fd.Name.Name] = ef
 		}
 	}
+	return out
+}
+
+func extTestsAll(rels []string) []string {
+	funcs := extFuncs(rels)
+	var closure func(name string, depth int, seen map[string]bool) map[string]bool
+	closure = func(name string, depth int, seen map[string]bool) map[string]bool {
+		res := map[string]bool{}
+		ef := funcs[name]
+		if ef == nil || seen[name] || depth > 3 {
+			return res
+		}
+		seen[name] = true
+		for l := range ef.direct {
+			res[l] = true
+		}
+		for c := range ef.callees {
+			// only through small helpers (a predicate or a path helper), not through the callers of a scan
+			if cf := funcs[c]; cf != nil && len(cf.fd.Body.List) <= 8 {
+				for l := range closure(c, depth+1, seen) {
+					res[l] = true
+				}
+			}
+		}
+		return res
+	}
+	var acc []string
+	var names []string
+	for n := range funcs {
+		names = append(names, n)
+	}
+	sort.Strings(names)
+	for _, rel := range rels {
+		for _, n := range names {
+			ef := funcs[n]
+			if ef.rel != rel {
+				continue
+			}
+			set := closure(n, 0, map[string]bool{})
+			if len(set) == 0 {
+				continue
+			}
+			var lits []string
+			for l := range set {
+				lits = append(lits, l)
+			}
+			sort.Strings(lits)
+			acc = append(acc, "("+leanStr(rel+":"+n)+", "+leanStrList(lits)+")")
+		}
+	}
+	return acc
 }
 
 func factsExts(w *strings.Builder) {
-	var acc []string
-	for _, rel := range []string{"pkg/cdi/spec.go", "pkg/cdi/cache.go", "pkg/cdi/spec-dirs.go"} {
-		extTestsIn(rel, w, &acc)
-	}
+	acc := extTestsAll([]string{"pkg/cdi/spec.go", "pkg/cdi/cache.go", "pkg/cdi/spec-dirs.go"})
 	fmt.Fprintf(w, "/-- F6: per function, the string literals an extension is compared with. -/\ndef extTests : List (String × List String) := [%s]\n", strings.Join(acc, ",\n  "))
 	f := parseFile("pkg/cdi/spec.go")
 	sc := stringConsts(f)
@@ -613,48 +774,66 @@ func factsWatch(w *strings.Builder) {
 	if fd == nil {
 		die("cache.go: (*watch).watch not found")
 	}
+	// the event mask: the |-combination of fsnotify operations with the most operands found in the file
+	// (a local of watch(), a package-level constant, ...), outside branches guarded by a darwin test
 	var mask []string
-	var darwinOnly []string
-	collect := func(e ast.Expr, dst *[]string) {
-		ast.Inspect(e, func(n ast.Node) bool {
-			if se, ok := n.(*ast.SelectorExpr); ok {
-				if x, ok := se.X.(*ast.Ident); ok && x.Name == "fsnotify" {
-					*dst = append(*dst, se.Sel.Name)
+	orOperands := func(e ast.Expr) []string {
+		var out []string
+		ok := true
+		var rec func(e ast.Expr)
+		rec = func(e ast.Expr) {
+			switch t := e.(type) {
+			case *ast.BinaryExpr:
+				if t.Op == token.OR {
+					rec(t.X)
+					rec(t.Y)
+					return
 				}
+				ok = false
+			case *ast.ParenExpr:
+				rec(t.X)
+			case *ast.SelectorExpr:
+				if x, isId := t.X.(*ast.Ident); isId && x.Name == "fsnotify" {
+					out = append(out, t.Sel.Name)
+					return
+				}
+				ok = false
+			default:
+				ok = false
 			}
-			return true
-		})
+		}
+		rec(e)
+		if !ok {
+			return nil
+		}
+		return out
 	}
-	var walk func(n ast.Node, underDarwin bool)
-	walk = func(n ast.Node, underDarwin bool) {
+	var walk func(n ast.Node)
+	walk = func(n ast.Node) {
 		ast.Inspect(n, func(m ast.Node) bool {
 			switch t := m.(type) {
 			case *ast.IfStmt:
-				cond := fmt.Sprint(nodeString(t.Cond))
-				if strings.Contains(cond, "darwin") {
-					walk(t.Body, true)
+				if strings.Contains(nodeString(t.Cond), "darwin") {
 					if t.Else != nil {
-						walk(t.Else, underDarwin)
+						walk(t.Else)
 					}
 					return false
 				}
-			case *ast.AssignStmt:
-				if len(t.Lhs) == 1 {
-					if id, ok := t.Lhs[0].(*ast.Ident); ok && id.Name == "eventMask" {
-						if underDarwin {
-							collect(t.Rhs[0], &darwinOnly)
-						} else {
-							collect(t.Rhs[0], &mask)
-						}
-					}
+			case *ast.BinaryExpr:
+				if ops := orOperands(t); len(ops) > len(mask) {
+					mask = ops
+				}
+				if t.Op == token.OR {
+					return false
 				}
 			}
 			return true
 		})
 	}
-	walk(fd.Body, false)
+	walk(f)
+	_ = fd
 	if len(mask) == 0 {
-		die("cache.go: eventMask assignment not found in watch()")
+		die("cache.go: no combination of fsnotify operations found")
 	}
 	sort.Strings(mask)
 	fmt.Fprintf(w, "/-- F7: fsnotify ops in `eventMask` on non-darwin systems. -/\ndef eventMask : List String := %s\n", leanStrList(mask))
@@ -682,11 +861,14 @@ func main() {
 	var w strings.Builder
 	w.WriteString("/- GENERATED by /verif/factgen from the working tree of the repository. Do not edit. -/\n")
 	w.WriteString("namespace Cdi.Generated\n\n")
-	factsVersions(&w)
-	factsEdits(&w)
-	factsAnnotations(&w)
-	factsExts(&w)
-	factsWatch(&w)
+	inGroup = true
+	group(&w, "F1 versions", factsVersions, "def versionTable : List (String × String) := []\ndef vEarliest : String := \"\"\ndef currentVersion : String := \"\"\ndef specsGoLoopVarPerIteration : Bool := false\ndef rangeVarAddressTaken : List String := [\"factgen-failed\"]\n")
+	group(&w, "F4 edits", factsEdits, "def hookNames : List String := []\ndef deviceTypes : List String := []\ndef hookDispatch : List (String × String) := []\n")
+	group(&w, "F5 annotations", factsAnnotations, "def annotationPrefix : String := \"\"\ndef maxNameLen : Nat := 0\ndef k8sQualifiedNameFmt : String := \"\"\ndef k8sDns1123SubdomainFmt : String := \"\"\ndef k8sQualifiedNameMaxLength : Nat := 0\ndef k8sDns1123SubdomainMaxLength : Nat := 0\ndef totalAnnotationSizeLimit : Nat := 0\n")
+	group(&w, "F6 extensions", factsExts, "def extTests : List (String × List String) := []\ndef defaultSpecExt : String := \"\"\ndef tmpPattern : String := \"\"\ndef writeCalls : List String := []\n")
+	group(&w, "F7 watch", factsWatch, "def eventMask : List String := []\n")
+	inGroup = false
+	fmt.Fprintf(&w, "\n/-- extractors that failed on this tree (their facts above are empty fallbacks) -/\ndef factgenErrors : List String := %s\n", leanStrList(factErrors))
 	w.WriteString("\nend Cdi.Generated\n")
 	if err := os.WriteFile(filepath.Join(*outDir, "Facts.lean"), []byte(w.String()), 0o644); err != nil {
 		die("%v", err)
@@ -698,6 +880,8 @@ func main() {
 }
 
 var extraGenerators []func(outDir string)
+
+var inGroup bool
 
 func writeOut(path, content string) {
 	if err := os.WriteFile(path, []byte(content), 0o644); err != nil {
